@@ -118,7 +118,7 @@ Print Assumptions C16_rollback_before_never_panics.
 
 Theorem C16_retention_zero_disables_recording :
   forall (T : Type) (tsize : N) (enc : T -> list N) (dec : list N -> T) (s : @rv T) st,
-  k s = 0 -> rv_commit tsize enc dec st s = stamped_write st s.
+  k s = 0 -> rv_commit tsize enc dec st s = stamped_write tsize dec st s.
 Proof. exact @commit_k0_is_stamped_write. Qed.
 Print Assumptions C16_retention_zero_disables_recording.
 
